@@ -435,21 +435,24 @@ Proof.
       cbn [app]. apply Hmk; [reflexivity| |].
       * rewrite !forallb_app, Hst, close_ev_calm, reset_ev_calm. reflexivity.
       * repeat split; intros; congruence.
-    + destruct (dr_drain d1 t1) as [[? ?] t2]. rewrite do_reset_eq. unfold reset_c. cs.
-      cbn [app]. apply Hmk; [reflexivity| |].
-      * rewrite !forallb_app, Hst, reset_ev_calm. reflexivity.
-      * repeat split; intros; congruence.
+    + destruct (dr_drain d1 t1) as [[de ?] t2]. unfold close_unless.
+      destruct (drained de); cbv beta iota; rewrite ?do_close_eq; cbv beta iota; rewrite do_reset_eq;
+        unfold reset_c, close_c; cs; cbn [app]; (apply Hmk; [reflexivity| |]).
+      1,3: rewrite !forallb_app, Hst, ?close_ev_calm, reset_ev_calm; reflexivity.
+      1,2: repeat split; intros; congruence.
   - (* LMTP, one status for everybody *)
     destruct (dp_panic p).
     + rewrite do_close_eq. unfold reset_c, close_c. cs.
       cbn [app]. apply Hmk; [reflexivity| |].
       * rewrite !forallb_app. cbn [forallb]. rewrite close_ev_calm, reset_ev_calm. reflexivity.
       * repeat split; intros; congruence.
-    + destruct (dr_drain d1 t1) as [[? ?] t2]. rewrite do_reset_eq. unfold reset_c. cs.
-      cbn [app]. apply Hmk; [reflexivity| |].
-      * rewrite !forallb_app, (plain_calm _ (statuses_same_plain (r0 :: rc) ret)), reset_ev_calm. reflexivity.
-      * split; [intros; congruence|]. split; [intros; congruence|]. intros _ _ _.
-        eexists (r0 :: rc), _. split; [discriminate|reflexivity].
+    + destruct (dr_drain d1 t1) as [[de ?] t2]. unfold close_unless.
+      destruct (drained de); cbv beta iota; rewrite ?do_close_eq; cbv beta iota; rewrite do_reset_eq;
+        unfold reset_c, close_c; cs; cbn [app]; (apply Hmk; [reflexivity| |]).
+      1,3: rewrite !forallb_app, (plain_calm _ (statuses_same_plain (r0 :: rc) ret)), ?close_ev_calm, reset_ev_calm;
+        reflexivity.
+      1,2: (split; [intros; congruence|]; split; [intros; congruence|]; intros _ _ _;
+            eexists (r0 :: rc), _; split; [discriminate|reflexivity]).
   - (* SMTP *)
     destruct (dp_panic p).
     + rewrite do_close_eq. unfold reset_c, close_c. cs.
@@ -460,11 +463,12 @@ Proof.
         -- rewrite <- app_assoc. reflexivity.
         -- rewrite forallb_app. cbn [forallb]. rewrite andb_true_r.
            unfold reset_ev, abort_ev. cs. reflexivity.
-    + destruct (dr_drain d1 t1) as [[? ?] t2]. destruct (data_error_to_status ret) as [[code ec] msg] eqn:Est.
-      rewrite do_reset_eq. unfold reset_c. cs.
-      cbn [app]. apply Hmk; [reflexivity| |].
-      * cbn [forallb]. rewrite reset_ev_calm. reflexivity.
-      * split; [|split; intros; congruence]. intros _ _. eexists code, ec, msg, _. split; reflexivity.
+    + destruct (dr_drain d1 t1) as [[de ?] t2]. destruct (data_error_to_status ret) as [[code ec] msg] eqn:Est.
+      unfold close_unless.
+      destruct (drained de); cbv beta iota; rewrite ?do_close_eq; cbv beta iota; rewrite do_reset_eq;
+        unfold reset_c, close_c; cs; cbn [app]; (apply Hmk; [reflexivity| |]).
+      1,3: cbn [forallb]; rewrite ?forallb_app, ?close_ev_calm, reset_ev_calm; reflexivity.
+      1,2: (split; [|split; intros; congruence]; intros _ _; eexists code, ec, msg, _; split; reflexivity).
 Qed.
 
 (* ---------- dispatch: everything but BDAT ---------- *)
@@ -633,6 +637,20 @@ Proof.
   cbn [fst]. apply calm_nocd, plain_calm, statuses_plain.
 Qed.
 
+(* a refused chunk: the reply, then discardChunk (which closes the connection
+   when the declared octets cannot all be read) *)
+Lemma BS_refused cfg st last c size code ec msg :
+  BdRel st c -> In (code, ec, msg) bdat_refusals ->
+  BS cfg st last (let '(c1, ev1) := discard_chunk cfg c size in (c1, reply code ec msg :: ev1)).
+Proof.
+  intros HB Hin. rewrite discard_chunk_eq. destruct (discard_short c size).
+  - split; [|split; [exact I|]].
+    + cbn [snd]. apply (nocd_app [reply code ec msg] (close_ev _)); [reflexivity|apply calm_nocd, close_ev_calm].
+    + intros _. exists [], (write_response code ec [msg]), (close_ev (upd_t c (discard_t cfg c size))).
+      split; [reflexivity|]. split; [reflexivity|]. eapply BV_refused; [exact Hin|reflexivity].
+  - eapply BS_refuse; [exact HB|destruct c; reflexivity|exact Hin].
+Qed.
+
 Ltac nocd_tac :=
   first [ assumption | apply calm_nocd, reset_ev_calm | apply calm_nocd, close_ev_calm
         | apply bdat_lmtp_replies_nocd | reflexivity | (apply nocd_app; nocd_tac) ].
@@ -652,19 +670,21 @@ Proof.
   end.
   2:{ destruct more as [|a1 [|a2 more]]; [exact Hbody|exact Hbody|apply Hrefuse; in_refusals]. }
   destruct (parse_uint 32 a0) as [size| |]; [|apply Hrefuse; in_refusals..].
-  destruct fr; [|simp_cond_bs; rewrite discard_chunk_eq; cs; apply Hrefuse; in_refusals].
-  destruct rc as [|r0 rc]; simp_cond_bs; [rewrite discard_chunk_eq; cs; apply Hrefuse; in_refusals|].
+  destruct fr; [|simp_cond_bs; apply BS_refused; [exact HB|in_refusals]].
+  destruct rc as [|r0 rc]; simp_cond_bs; [apply BS_refused; [exact HB|in_refusals]|].
   match goal with
   | |- BS _ _ _ (match ?lo with None => _ | Some _ => _ end) => destruct lo as [last|] eqn:Elast
   end.
-  2:{ rewrite discard_chunk_eq; cs; apply Hrefuse; in_refusals. }
+  2:{ apply BS_refused; [exact HB|in_refusals]. }
   apply last_ok_last_of in Elast. rewrite <- Elast. clear Elast.
   get_session HI se.
   destruct (negb (cf_max_bytes cfg =? 0)%Z && (cf_max_bytes cfg <? rv + Z.of_N size)%Z).
-  { rewrite do_reset_eq, discard_chunk_eq; cs; unfold reset_c; cs.
-    split; [cbn [snd app forallb]; apply calm_nocd, reset_ev_calm|]. split; [exact I|].
-    intros _. eexists [], _, _. split; [reflexivity|]. split; [reflexivity|].
-    eapply BV_refused; [|reflexivity]. in_refusals. }
+  { rewrite discard_chunk_eq.
+    match goal with |- context [discard_short ?c ?s] => destruct (discard_short c s) end;
+      cbv beta iota; rewrite do_reset_eq; unfold reset_c, close_c; cs;
+      (split; [cbn [snd]; nocd_tac|]; split; [exact I|];
+       intros _; eexists [], _, _; split; [reflexivity|]; split; [reflexivity|];
+       eapply BV_refused; [|reflexivity]; in_refusals). }
   simp_cond_bs.
   destruct bd_events_nocd as (N1 & N2 & N3 & N4). destruct bd_events_no_wire as (W1 & W2 & W3 & W4).
   (* start the delivery if there is none *)
@@ -697,35 +717,39 @@ Proof.
   rewrite <- dl_run_app in Hm1.
   destruct werr as [e|]; [|destruct cerr as [te|]].
   - (* the backend had stopped reading *)
-    destruct (Hwe e eq_refl) as (v & Hv & He). clear Hwe. cbv beta iota.
+    destruct (Hwe e eq_refl) as (v & Hv & He). clear Hwe. cbv beta iota zeta.
     destruct (last && cf_lmtp cfg) eqn:Ell.
     + apply andb_true_iff in Ell as [El1 El2].
       pose proof (N2 b1 RDataReset) as Hn2. destruct (bd_end b1 RDataReset) as [b2 ev2]. cbn [fst snd] in *.
       pose proof (bdat_lmtp_replies_nocd cfg b2 e) as Hrs.
       destruct (bdat_lmtp_replies cfg b2 e) as [rs pk]. cbn [fst] in Hrs. cs.
-      destruct (bd_panics b1); rewrite ?do_close_eq; cs; rewrite ?do_reset_eq; unfold close_c, reset_c; cs;
+      match goal with |- context [if ?b then do_close _ else _] => destruct b end;
+        rewrite ?do_close_eq; cs; rewrite ?do_reset_eq; unfold close_c, reset_c; cs;
         (split; [cbn [snd]; nocd_tac|split; [exact I|intros; congruence]]).
     + destruct (data_error_to_status e) as [[code ec] msg] eqn:Est. cs.
       assert (Hv' : bdat_verdict (dl_run st (ev0 ++ ev1)) last (write_response code ec [msg])).
       { unfold BdMatch in Hm1. rewrite Hv in Hm1. destruct Hm1 as (g & tt & r & p & Hst & Hvr).
         eapply BV_stopped; [exact Hst| |reflexivity]. rewrite <- Hvr, <- He. exact Est. }
-      destruct (bd_panics b1); rewrite ?do_close_eq; cs; rewrite ?do_reset_eq; unfold close_c, reset_c; cs;
+      match goal with |- context [if ?b then do_close _ else _] => destruct b end;
+        rewrite ?do_close_eq; cs; rewrite ?do_reset_eq; unfold close_c, reset_c; cs;
         (split; [cbn [snd]; nocd_tac|split; [exact I|]]; intros _;
          eexists (ev0 ++ ev1), _, _; split; [rewrite <- app_assoc; reflexivity|]; split; [no_wire_tac|exact Hv']).
   - (* the chunk could not be read *)
-    cbv beta iota. destruct (t_copy_n (size - blen chunk) t1) as [[dg de] t1d].
+    cbv beta iota zeta. destruct (t_copy_n (size - blen chunk) t1) as [[dg de] t1d]. cbv beta iota zeta.
     destruct (last && cf_lmtp cfg) eqn:Ell.
     + apply andb_true_iff in Ell as [El1 El2].
       pose proof (N2 b1 (rerr_of_copy te)) as Hn2. destruct (bd_end b1 (rerr_of_copy te)) as [b2 ev2]. cbn [fst snd] in *.
       pose proof (bdat_lmtp_replies_nocd cfg b2 (berr_of_rerr (rerr_of_copy te))) as Hrs.
       destruct (bdat_lmtp_replies cfg b2 (berr_of_rerr (rerr_of_copy te))) as [rs pk]. cbn [fst] in Hrs. cs.
-      rewrite ?do_reset_eq; unfold reset_c; cs;
+      match goal with |- context [if ?b then do_close _ else _] => destruct b end;
+        rewrite ?do_close_eq; cs; rewrite ?do_reset_eq; unfold close_c, reset_c; cs;
         (split; [cbn [snd]; nocd_tac|split; [exact I|intros; congruence]]).
     + destruct (data_error_to_status (berr_of_rerr (rerr_of_copy te))) as [[code ec] msg] eqn:Est. cs.
-      rewrite ?do_reset_eq; unfold reset_c; cs;
+      match goal with |- context [if ?b then do_close _ else _] => destruct b end;
+        rewrite ?do_close_eq; cs; rewrite ?do_reset_eq; unfold close_c, reset_c; cs;
         (split; [cbn [snd]; nocd_tac|split; [exact I|]]; intros _;
          eexists (ev0 ++ ev1), _, _; split; [rewrite <- app_assoc; reflexivity|]; split; [no_wire_tac|]).
-      eapply BV_read_failed; [exact Est|reflexivity].
+      all: eapply BV_read_failed; [exact Est|reflexivity].
   - (* the chunk was copied completely *)
     destruct last; simp_cond_bs.
     2:{ cs. split; [cbn [snd]; nocd_tac|]. split.
